@@ -280,8 +280,9 @@ def shift_refs(ops, off):
 
 def gen_multi_lf(rng, naming=None, n_lf=None, vrl=None):
     """Several logical files in one DLISFile. naming: 'distinct' (every set name is specific to its logical file),
-    'default' (all use the default names: shared sets, D12), 'partial' (only some shared)."""
-    naming = naming or rng.choice(['distinct', 'distinct', 'default', 'partial'])
+    'default' (all use the default names: shared sets, D12), 'partial' (only some shared), 'origin_only' (only the ORIGIN
+    set is shared: refused at write because the shared defining origin's FILE-ID cannot equal both header ids)."""
+    naming = naming or rng.choice(['distinct', 'distinct', 'default', 'partial', 'origin_only'])
     n_lf = n_lf or rng.choice([2, 2, 3])
     vrl = vrl or rng.choice([128, 8192])
     prog = [{'op': 'newfile', 'ident': 'MAIN-STORAGE-UNIT', 'seq': 1, 'vrl': vrl}]
@@ -300,7 +301,9 @@ def gen_multi_lf(rng, naming=None, n_lf=None, vrl=None):
             if s['op'] == 'origin':
                 s['_fh_id'] = 'LF-%d' % li
             if s['op'] in ('origin', 'add', 'channel', 'frame'):
-                if naming == 'distinct' or (naming == 'partial' and rng.random() < 0.6):
+                if naming == 'origin_only':
+                    s['set_name'] = None if s['op'] == 'origin' else 'LF%d' % li     # only the ORIGIN set is shared
+                elif naming == 'distinct' or (naming == 'partial' and rng.random() < 0.6):
                     s['set_name'] = 'LF%d' % li
                 else:
                     s['set_name'] = None
@@ -343,6 +346,34 @@ def gen_multi_lf(rng, naming=None, n_lf=None, vrl=None):
         prog += order
     prog.append({'op': 'write'})
     return prog, naming
+
+
+def gen_frames_same_names(rng):
+    """One logical file, two or three frames whose channels repeat the same names, kept apart by CHANNEL set names (or by
+    copy numbers in one set), each channel with its own inline data and each frame with its own row count."""
+    R0 = specgen
+    prog = [{'op': 'newfile', 'ident': 'MAIN-STORAGE-UNIT', 'seq': 1, 'vrl': rng.choice([128, 8192])},
+            {'op': 'lf', 'fh_id': R0.r_str('H'), 'fh_seq': R0.r_int(1)},
+            {'op': 'origin', 'lf': 0, 'name': R0.r_str('O'), 'set_name': None, 'origin': None, '_fh_id': 'H',
+             'kw': {'file_set_number': R0.r_int(1), 'creation_time': R0.r_str('2020/01/01 00:00:00')}}]
+    created = 1
+    nfr = rng.choice([2, 2, 3])
+    names = rng.sample(['DEPTH', 'VAL', 'AMP', 'T'], rng.choice([1, 2, 3]))
+    named_sets = rng.random() < 0.7
+    for f in range(nfr):
+        rows = 3 + 2 * f + rng.randrange(0, 2)
+        chans = []
+        for nm in names:
+            prog.append({'op': 'channel', 'lf': 0, 'name': R0.r_str(nm), 'set_name': ('CS%d' % f) if named_sets else None, 'origin': None, 'kw': {},
+                         'data': {'dtype': rng.choice(['float64', 'int32', 'uint8']), 'rows': rows, 'width': rng.choice([None, None, 2]),
+                                  'seed': rng.randrange(1 << 20)}})
+            chans.append(created)
+            created += 1
+        prog.append({'op': 'frame', 'lf': 0, 'name': R0.r_str('FRAME-%d' % f), 'set_name': None, 'origin': None, 'kw': {},
+                     'channels': R0.r_list([R0.r_ref(i) for i in chans])})
+        created += 1
+    prog.append({'op': 'write'})
+    return prog
 
 
 HC_OK_NAMES = ['A', 'CH-1', 'DEPTH', 'X_2', 'TOOL-9', '0', 'Z']
@@ -465,6 +496,24 @@ def reject_kinds(tkey):
         elif cls == 'IdentAttribute' and A['attrs'][an]['has_converter'] and an in ('domain', 'phase', 'status'):
             out.append({p: R.r_str('NOT-A-MEMBER')})
     return out
+
+
+def d22_witness():
+    """The recorded history of known finding D22: a rejected add_origin (non-str name) leaves the unnamed ORIGIN set
+    registered; origin A goes to a named set, origin B (reference 7) to the unnamed one, which now comes first."""
+    R0 = specgen
+    return [{'op': 'newfile', 'ident': 'MAIN-STORAGE-UNIT', 'seq': 1, 'vrl': 8192},
+            {'op': 'lf', 'fh_id': R0.r_str('H'), 'fh_seq': R0.r_int(1)},
+            {'op': 'origin', 'lf': 0, 'name': R0.r_int(3), 'set_name': None, 'origin': None, '_fh_id': 'H', 'kw': {}},
+            {'op': 'origin', 'lf': 0, 'name': R0.r_str('A'), 'set_name': 'S', 'origin': None, '_fh_id': 'H',
+             'kw': {'file_set_number': R0.r_int(1), 'creation_time': R0.r_str('2020/01/01 00:00:00')}},
+            {'op': 'origin', 'lf': 0, 'name': R0.r_str('B'), 'set_name': None, 'origin': R0.r_int(7), '_fh_id': 'H',
+             'kw': {'file_set_number': R0.r_int(1), 'creation_time': R0.r_str('2020/01/01 00:00:00')}},
+            {'op': 'add', 'lf': 0, 'type': 'zone', 'name': R0.r_str('Z'), 'set_name': None, 'origin': None, 'kw': {}},
+            {'op': 'channel', 'lf': 0, 'name': R0.r_str('CH'), 'set_name': None, 'origin': None, 'kw': {},
+             'data': {'dtype': 'float64', 'rows': 3, 'width': None, 'seed': 9}},
+            {'op': 'frame', 'lf': 0, 'name': R0.r_str('F'), 'set_name': None, 'origin': None, 'kw': {}, 'channels': R0.r_list([R0.r_ref(4)])},
+            {'op': 'write'}]
 
 
 def gen_origin_sandwich(rng, explicit=None, objects_before=True, second_explicit=None):
